@@ -11,6 +11,8 @@ A_COMMON = ("Trusted base: go/types+go/ssa, govc's translation and memory model,
             "data-structure invariants that are `relies` clauses (assumed at function entry, re-established by the writers' postconditions, listed in the evidence); "
             "`postulate` clauses (ghost denotations of slots, listed in the evidence).")
 
+A_E2E = (" A bounded END-TO-END cross-check of the same statements on the real code against independent oracles (a map model with all tree invariants checked at every node after every step of pseudo-random Set/Delete/Flush/Evict/re-open histories; an independent root-record validator over files with junk tails, truncations and boundary alignments) runs with every check and is reported separately under coverage.bounded: it exercises the assumptions (slot-denotation postulates, library contracts), and is never counted as proved.")
+
 A_TREE = (" Tree tier: each nodeLoc/itemLoc slot denotes an abstract tree/item held in ghost arrays (tvs/ias); nodeLoc.read/itemLoc.read POSTULATE that what they return denotes the slot "
           "(justified by the codec round trip C14 and the append-only file C09, not re-proved per call) and that a node reachable from a live root has not been recycled (the C10 ownership argument, DESIGN 5.C10; "
           "D6 shows where it breaks). Lemmas about the spec functions that the solvers take as axioms are proved in Lean 4 + Mathlib over hand-transcribed definitions (/verif/lean): L1 (no member of a heap-ordered search tree outranks the root), L2 (cnt of a search tree = number of its keys), U (treap uniqueness).")
@@ -20,7 +22,7 @@ claim("C14", "proof",
       "postconditions, written from the layout text, of the real encoders (itemBa.render, ploc.write, node.populateDiskStruct, itemLoc.write, "
       "nodeLoc.write, Store.writeRoots) and the real decoders (itemBa.populate, ploc.read, populateNode, itemLoc.read, nodeLoc.read, readRootsEnd, "
       "checkAndReadRoots); encoder and decoder contracts use the same spec functions, so each pair is inverse; writeNodes persists children before parents (P2).",
-      A_COMMON + " Not decided: the JSON text inside the root record (library, A8).")
+      A_E2E + A_COMMON + " Not decided: the JSON text inside the root record (library, A8).")
 
 claim("C01", "proof",
       "Per-call sorted-map semantics proved over the abstract tree T denoted by the current root: GetItem/Get return the item stored under the key or nil (loop invariant over the descent), "
@@ -28,19 +30,19 @@ claim("C01", "proof",
       "Delete reports presence and removes exactly that key, MinItem/MaxItem return the extreme keys (walk, both directions), GetTotals returns cnt(T)/sumb(T); "
       "union/split/join carry the set-level specifications (membership, item-per-key with `that` taking precedence, search order); every lookup leaves all versions untouched. "
       "EvictSomeItems and Flush are proved to change no version and no slot denotation (Flush: every version stays pinned until its own release, under the rely that distinct collections of a store have distinct version objects); a successful Flush is proved to end with the root record as its last write (which is what re-open reads).",
-      A_COMMON + A_TREE + " Known findings: Exist has no error result (D9). Histories are covered by induction over calls (each call's relies are the previous calls' ensures), not by exploring sequences. NOT proved: that a re-opened store denotes the flushed trees (JSON root record, A8, and the read postulates); "
+      A_E2E + A_COMMON + A_TREE + " Known findings: Exist has no error result (D9). Histories are covered by induction over calls (each call's relies are the previous calls' ensures), not by exploring sequences. NOT proved: that a re-opened store denotes the flushed trees (JSON root record, A8, and the read postulates); "
       "value BYTES after evict/reload rest on C14+C09 (the abstract item identity is what lookups are proved to return).")
 
 claim("C13", "proof",
       "Proved for every node construction site in union/split/join/SetItem: mkNode is called with numNodes = cnt and numBytes = sumb of the abstract children plus the item (exact aggregates, a precondition of mkNode discharged at every call site, numInfo proved to return them); "
       "search order (bst) is a postcondition of union/split/join/SetItem/Delete; heap order (hp) is preserved by split, join, Delete, and by union/SetItem exactly under the property's own condition (no key overwritten with a lower priority).",
-      A_COMMON + A_TREE + " 'Canonical shape' (depth determined by keys and priorities alone) follows from the proved bst+hp postconditions by lemma U (treap uniqueness under distinct priorities), which is proved in Lean (/verif/lean/LemmaU.lean, re-checked by the thorough tier) -- the step from 'the tree is a bst and a heap' to 'the reported depth is the unique one' is that lemma plus visitNodes' proved depth clause, composed on paper; persisted aggregates = in-memory aggregates rests on the node codec (C14).")
+      A_E2E + A_COMMON + A_TREE + " 'Canonical shape' (depth determined by keys and priorities alone) follows from the proved bst+hp postconditions by lemma U (treap uniqueness under distinct priorities), which is proved in Lean (/verif/lean/LemmaU.lean, re-checked by the thorough tier) -- the step from 'the tree is a bst and a heap' to 'the reported depth is the unique one' is that lemma plus visitNodes' proved depth clause, composed on paper; persisted aggregates = in-memory aggregates rests on the node codec (C14).")
 
 claim("C03", "proof",
       "Proved: the root scan (scanBackwardsForMagicEnd, readRootsScan, checkAndReadRoots, readRoots, NewStoreEx) terminates and opens at the GREATEST position at which a complete, "
       "self-consistent root record ends (or reports that there is none; an I/O error is never mistaken for 'invalid' -- D5, repaired); a position is accepted iff the framing predicate written from the format holds; "
       "Flush writes items, then nodes, then the root record as its LAST write (commit point: magicEndAt(size) and size grew by at least one root record), never touches a byte below the old size, and a failed write leaves size and locations unset.",
-      A_COMMON + " Not decided: lemma TornRoot (a strict prefix of a root record contains no valid root end) is argued on paper; crash model = prefix of the ordered write sequence.")
+      A_E2E + A_COMMON + " Not decided: lemma TornRoot (a strict prefix of a root record contains no valid root end) is argued on paper; crash model = prefix of the ordered write sequence.")
 
 claim("C08", "proof",
       "Proved: FlushRevert lands on the greatest valid root strictly below the current one or on the empty store, truncates exactly there (once, never on a snapshot, never writes), refuses memory-only stores, "
@@ -50,7 +52,7 @@ claim("C08", "proof",
 claim("C09", "proof",
       "Proved for every WriteAt site and their callers up to Flush: writes go only at offsets >= the size at entry, every byte below it is unchanged (samePrefix), other files are untouched; "
       "the read paths under contract (scan, itemLoc.read, nodeLoc.read, GetItem, walk, GetTotals, split/join/union) have the empty write effect by their frame conditions; the single Truncate site is FlushRevert's (exactly once, at a valid root or 0, never on a read-only snapshot).",
-      A_COMMON + " Not decided: CopyTo and the visits (not under contract).")
+      A_E2E + A_COMMON + " Not decided: CopyTo and the visits (not under contract).")
 
 claim("C07", "proof",
       "Proved for the functions under contract (codecs, scan/open, writers, Flush, FlushRevert, GetItem, Get, SetItem, Set, Delete, walk, MinItem, MaxItem, GetTotals, union, split, join): every file error is propagated "
@@ -85,7 +87,7 @@ claim("C19", "proof",
 claim("C02", "other",
       "Proved premises P1 (codecs inverse), P2 (writeItems/writeNodes persist children before parents; locations only appear), P3 (each record is written at offset = size with the recorded location {offset, exact length} and size advanced by exactly that) for items, nodes and the root record; "
       "P5's scan part (open lands on the greatest valid root); Flush's commit point is its last write.",
-      A_COMMON + " Not decided: P4 (the root record names the pinned versions: JSON, A8), P5's decode part; the end-to-end 'reopen = last flushed state' composition is a paper argument over these premises.")
+      A_E2E + A_COMMON + " Not decided: P4 (the root record names the pinned versions: JSON, A8), P5's decode part; the end-to-end 'reopen = last flushed state' composition is a paper argument over these premises.")
 
 claim("C10", "other",
       "Local protocol obligations proved: only unmarked nodes get marked and never the sentinel; re-marking moves only nodes carrying the old mark; reclaim frees only nodes carrying this version's mark (R5); a version still referenced after a release is left untouched (R3/R5); the last release of an unchained version frees only that version's root handle (R7); "
@@ -111,7 +113,7 @@ claim("C06", "proof",
       "Proved over a ghost visit log (the visitor contract appends key position, abstract item, depth and has-value flag for each call; returning false sets a stop flag): visitNodes, for both choice functions, delivers only items of the tree in the requested range "
       "(ascend: key >= target; descend: key < target), each with the item stored under that key, its true depth (depth + depthIn) and a value when requested, in strictly ascending/descending order, and -- unless a visitor call returned false or an error occurred -- every key of the range (existential witness in the log); "
       "a false return stops the visit (no further visitor call can follow: the stop flag is a postcondition). VisitItemsAscendEx/DescendEx/Ascend/Descend carry the same clauses from the collection's current root; the order-checking wrapper and the depth-dropping adapters are verified against the visitor contract they are handed to visitNodes under; newIterator carries target and value mode to the producer.",
-      A_COMMON + A_TREE + " The iterators' producer/consumer goroutines are outside the subset (only newIterator is under contract); the link 'a closure verified against clauses X is used where the functype contract X is assumed' is by construction of the contract file, not checked by the engine; visitors are neutral (A9: they only write the ghost log).")
+      A_E2E + A_COMMON + A_TREE + " The iterators' producer/consumer goroutines are outside the subset (only newIterator is under contract); the link 'a closure verified against clauses X is used where the functype contract X is assumed' is by construction of the contract file, not checked by the engine; visitors are neutral (A9: they only write the ghost log).")
 
 claim("C18", "other",
       "Sequential obligations only: every visit entry point (VisitItemsAscend/Descend and the Ex variants, which the iterator's producer runs) releases the version it pinned on every path, error paths included (rootNodeLoc.refs is unchanged at exit: a postcondition), "
